@@ -193,5 +193,5 @@ def constant_fold_unary_op(op: str, value: ConstantValue) -> int | float | None:
     elif op == "~" and isinstance(value, int):
         return ~value
     elif op == "+" and isinstance(value, (int, float)):
-        return value
+        return +value
     return None
